@@ -247,7 +247,7 @@ def r7_shared_datagram_framer_is_stateless(ck, cx):
             continue
         if fp.deliveries and not fp.absences:
             continue
-        if any(e.kind == 'cond' and e.a is False and U(e.node).replace(' ', '') in ('len(self._buffer)', 'self._buffer') for e in fp.path.ev):
+        if any(e.kind == 'cond' and e.a is False and U(getattr(e, '_sub', None) or e.node).replace(' ', '') in ('len(self._buffer)', 'self._buffer') for e in fp.path.ev):
             continue        # the buffer is empty on this path: nothing to retain
         marks = [k_ for i_, k_, n_ in fp.loops]
         if marks and marks[-1] == 'backedge':
